@@ -130,6 +130,12 @@ impl<K: Ord, V: Val<A>, A: Ord + Hash> Map<K, V, A> {
     {}
 }
 
+// #[derive(Clone)] on Map (assumed field-wise)
+impl<K: Ord + Clone, V: Val<A>, A: Ord + Hash + Clone> Clone for Map<K, V, A> {
+    #[verifier::external_body]
+    fn clone(&self) -> (r: Self) ensures actor_ok::<A>() && clone_ok::<A>() ==> r.cl() == self.cl() { Map { clock: self.clock.clone(), entries: self.entries.clone(), deferred: self.deferred.clone() } }
+}
+
 impl<K: Ord, V: Val<A>, A: Ord + Hash> Default for Map<K, V, A> {
 //@extract fn src/map.rs "Default for Map" default
     fn default() -> /*@ (r: @*/ Self /*@ ) @*/
